@@ -83,6 +83,13 @@ END = [
     ("nl_predoc_pair_again", "\n  !> p `a!>b` !> c\n", [], ["!! p `a!>b` !> c"]),
     ("nl_altdoc_pair_again", "\n  !* a `q!*r` lt\n  ! m ore\n\n", ["!! a `q!*r` lt", "!! m ore"], []),
     ("nl_prealtdoc_pair_again", "\n  !| b 'x!|y' !| z\n  ! n ext\n", [], ["!! b 'x!|y' !| z", "!! n ext"]),
+    # a separator with nothing behind it (end of the logical line), and logical lines that hold nothing but separators
+    ("semi_then_nl", ";\n", [], []),
+    ("semi_then_comment", " ; ! c t\n", [], []),
+    ("semi_then_doc", "; !! d in\n", ["!! d in"], []),
+    ("nl_semi_alone", "\n;\n", [], []),
+    ("nl_semis_and_comment", "\n  ; ; ! c own\n", [], []),
+    ("nl_semi_cont_semi", "\n ; &\n ;\n", [], []),
     ("nl_com_linesep", " ! c\u2028 zz = 9 \x0c yy = 8\n", [], []),
 ]
 FINAL = [("", []), (" ! c fin", []), (" !! d fin", ["!! d fin"]), ("\n", []), ("\n\n! c\n", [])]
@@ -151,7 +158,7 @@ def canon_observed(lines):
         if t.startswith("!!"):
             if t.strip() != "!!":
                 out.append(("d", t.rstrip()))
-        else:
+        elif lexer.normalise(t):  # (empty statements - between, before or after `;` - are nothing)
             out.append(("s", lexer.normalise(t)))
     return out
 
@@ -386,7 +393,7 @@ def main():
     run = core.Run(
         PID,
         rule="case = token sequence over {code fragments, 16 literal kinds, 9 literals continued across lines} "
-        "x separator per gap from {9 continuation forms, 19 statement-ending forms incl. ;, trailing !/!! comments, doc comments of all four forms (also repeating their introducing character pair in the text), "
+        "x separator per gap from {9 continuation forms, 25 statement-ending forms incl. ;, trailing !/!! comments, doc comments of all four forms (also repeating their introducing character pair in the text), "
         "own-line comment/doc/pre-doc lines, blank lines} x 5 file endings; exhaustive up to the stated length, then "
         "seeded random long sequences. Non-trivial: contains a literal or a continuation; distinct by file text.",
         assumptions=[
